@@ -201,6 +201,7 @@ pub enum SyntaxError {
     TrailingTokensAfterProgramEnd,
     ReservedKeyword,
     InvalidAssignmentTarget,
+    NestingTooDeep,
 }
 
 impl AsStr for SyntaxError {
@@ -218,12 +219,21 @@ impl AsStr for SyntaxError {
             SyntaxError::ExpectedNumberOrVariableOrLParen => {
                 "Missing number, variable, or left parenthesis"
             }
+            SyntaxError::NestingTooDeep => "Code nest too deep",
             SyntaxError::TrailingTokensAfterProgramEnd => "Unexpected token",
             SyntaxError::ReservedKeyword => "Use of reserved keyword",
             SyntaxError::InvalidAssignmentTarget => "Invalid assignment target",
         }
     }
 }
+
+/// Deepest nesting of blocks and expressions the parser itself descends into.
+const MAX_PARSE_NESTING: u32 = 256;
+
+/// Deepest tree the parser hands on. The resolver, the analysis passes and the runtime
+/// all recurse over the tree, and a long operator chain (`a add b add c ...`) builds a
+/// deep tree without any nesting in the source, so the finished tree is measured too.
+const MAX_TREE_DEPTH: u32 = 512;
 
 /// An arena-backed recursive-descent parser.
 ///
@@ -241,13 +251,16 @@ where
     cur: SpannedToken<'ast>,
     errors: Diagnostics<'ast>,
     arena: &'ast Arena,
+    nesting: u32,
+    /// Set once the nesting limit was hit: the rest of the input is skipped.
+    gave_up: bool,
 }
 
 impl<'src: 'ast, 'ast> Parser<'src, 'ast> {
     /// Creates a new [`Parser`] instance.
     pub fn new(mut lexer: Lexer<'ast, 'src>, arena: &'ast Arena) -> Self {
         let cur = lexer.next().unwrap_or_default();
-        Self { lexer, cur, errors: Diagnostics::new(arena), arena }
+        Self { lexer, cur, errors: Diagnostics::new(arena), arena, nesting: 0, gave_up: false }
     }
 
     #[inline]
@@ -263,6 +276,10 @@ impl<'src: 'ast, 'ast> Parser<'src, 'ast> {
 
     #[inline]
     fn bump(&mut self) {
+        if self.gave_up {
+            self.cur.token = Token::EOF;
+            return;
+        }
         self.cur = self.lexer.next().unwrap_or(SpannedToken {
             token: Token::EOF,
             span: Range::from(self.cur.span.end..self.cur.span.end),
@@ -270,7 +287,23 @@ impl<'src: 'ast, 'ast> Parser<'src, 'ast> {
     }
 
     fn emit_error(&mut self, span: Span, error: SyntaxError, labels: Vec<Label<'ast>>) {
+        // Everything reported after giving up would only be about the skipped input.
+        if self.gave_up {
+            return;
+        }
         self.errors.emit(span, Severity::Error, "syntax", error.as_str(), labels);
+    }
+
+    /// Reports code that nests too deep, once, and skips the rest of the input so every
+    /// pending parse function unwinds at once.
+    fn give_up_on_nesting(&mut self, span: Span) {
+        self.emit_error(
+            span,
+            SyntaxError::NestingTooDeep,
+            vec![Label { span, message: ArenaCow::Borrowed("Dis code nest too deep") }],
+        );
+        self.gave_up = true;
+        self.cur.token = Token::EOF;
     }
 
     /// Returns the parsed program as a Block reference.
@@ -278,6 +311,11 @@ impl<'src: 'ast, 'ast> Parser<'src, 'ast> {
     /// gets a single unified error report for both lexical and syntax errors.
     pub fn parse_program(&mut self) -> (BlockRef<'ast>, &Diagnostics<'ast>) {
         let block_ref = self.parse_program_body();
+        if !self.gave_up
+            && let Some(span) = Self::find_too_deep(block_ref, self.arena)
+        {
+            self.give_up_on_nesting(span);
+        }
         if self.cur.token != Token::EOF {
             self.emit_error(self.cur.span, SyntaxError::TrailingTokensAfterProgramEnd, Vec::new());
         }
@@ -286,6 +324,105 @@ impl<'src: 'ast, 'ast> Parser<'src, 'ast> {
         merged.diagnostics.extend(mem::take(&mut self.errors.diagnostics));
         self.errors = merged;
         (block_ref, &self.errors)
+    }
+
+    /// Walks the finished tree with an explicit stack and returns the span of the first
+    /// node that sits deeper than `MAX_TREE_DEPTH`.
+    fn find_too_deep(root: BlockRef<'ast>, arena: &'ast Arena) -> Option<Span> {
+        enum Node<'ast> {
+            Block(BlockRef<'ast>),
+            Stmt(StmtRef<'ast>),
+            Expr(ExprRef<'ast>),
+        }
+
+        let mut stack = Vec::new_in(arena);
+        stack.push((Node::Block(root), 0u32));
+        while let Some((node, depth)) = stack.pop() {
+            if depth > MAX_TREE_DEPTH {
+                return Some(match node {
+                    Node::Block(block) => block.span,
+                    Node::Stmt(
+                        Stmt::FunctionDef { span, .. }
+                        | Stmt::Assign { span, .. }
+                        | Stmt::AssignExisting { span, .. }
+                        | Stmt::AssignIndex { span, .. }
+                        | Stmt::If { span, .. }
+                        | Stmt::Loop { span, .. }
+                        | Stmt::Block { span, .. }
+                        | Stmt::Return { span, .. }
+                        | Stmt::Break { span }
+                        | Stmt::Continue { span }
+                        | Stmt::Expression { span, .. },
+                    ) => *span,
+                    Node::Expr(expr) => expr.span(),
+                });
+            }
+            let below = depth + 1;
+            match node {
+                Node::Block(block) => {
+                    for &stmt in block.stmts {
+                        stack.push((Node::Stmt(stmt), below));
+                    }
+                }
+                Node::Stmt(stmt) => match stmt {
+                    Stmt::FunctionDef { body, .. } => stack.push((Node::Block(body), below)),
+                    Stmt::Assign { expr, .. }
+                    | Stmt::AssignExisting { expr, .. }
+                    | Stmt::Expression { expr, .. } => stack.push((Node::Expr(expr), below)),
+                    Stmt::AssignIndex { target, expr, .. } => {
+                        stack.push((Node::Expr(target), below));
+                        stack.push((Node::Expr(expr), below));
+                    }
+                    Stmt::If { cond, then_b, else_b, .. } => {
+                        stack.push((Node::Expr(cond), below));
+                        stack.push((Node::Block(then_b), below));
+                        if let Some(else_b) = else_b {
+                            stack.push((Node::Block(else_b), below));
+                        }
+                    }
+                    Stmt::Loop { cond, body, .. } => {
+                        stack.push((Node::Expr(cond), below));
+                        stack.push((Node::Block(body), below));
+                    }
+                    Stmt::Block { block, .. } => stack.push((Node::Block(block), below)),
+                    Stmt::Return { expr, .. } => {
+                        if let Some(expr) = expr {
+                            stack.push((Node::Expr(expr), below));
+                        }
+                    }
+                    Stmt::Break { .. } | Stmt::Continue { .. } => {}
+                },
+                Node::Expr(expr) => match expr {
+                    Expr::Index { array, index, .. } => {
+                        stack.push((Node::Expr(array), below));
+                        stack.push((Node::Expr(index), below));
+                    }
+                    Expr::Binary { lhs, rhs, .. } => {
+                        stack.push((Node::Expr(lhs), below));
+                        stack.push((Node::Expr(rhs), below));
+                    }
+                    Expr::Call { callee, args, .. } => {
+                        stack.push((Node::Expr(callee), below));
+                        for &arg in args.args {
+                            stack.push((Node::Expr(arg), below));
+                        }
+                    }
+                    Expr::Array { elements, .. } => {
+                        for &element in *elements {
+                            stack.push((Node::Expr(element), below));
+                        }
+                    }
+                    Expr::Unary { expr, .. } => stack.push((Node::Expr(expr), below)),
+                    Expr::Member { object, .. } => stack.push((Node::Expr(object), below)),
+                    Expr::String { .. }
+                    | Expr::Number(..)
+                    | Expr::Var(..)
+                    | Expr::Bool(..)
+                    | Expr::Null(..) => {}
+                },
+            }
+        }
+        None
     }
 
     fn parse_program_body(&mut self) -> BlockRef<'ast> {
@@ -313,8 +450,20 @@ impl<'src: 'ast, 'ast> Parser<'src, 'ast> {
         self.alloc(Block { stmts, span: Range::from(start..end) })
     }
 
-    #[inline]
     fn parse_block_body(&mut self) -> BlockRef<'ast> {
+        if self.nesting >= MAX_PARSE_NESTING {
+            let span = self.cur.span;
+            self.give_up_on_nesting(span);
+            return self.alloc(Block { stmts: &[], span });
+        }
+        self.nesting += 1;
+        let block = self.parse_block_body_unguarded();
+        self.nesting -= 1;
+        block
+    }
+
+    #[inline]
+    fn parse_block_body_unguarded(&mut self) -> BlockRef<'ast> {
         let start = self.cur.span.start;
         let mut stmts = Vec::new_in(self.arena);
 
@@ -862,6 +1011,18 @@ impl<'src: 'ast, 'ast> Parser<'src, 'ast> {
 
     #[inline]
     fn parse_expression(&mut self, min_bp: u8) -> ExprRef<'ast> {
+        if self.nesting >= MAX_PARSE_NESTING {
+            let span = self.cur.span;
+            self.give_up_on_nesting(span);
+            return self.alloc(Expr::Null(span));
+        }
+        self.nesting += 1;
+        let expr = self.parse_expression_unguarded(min_bp);
+        self.nesting -= 1;
+        expr
+    }
+
+    fn parse_expression_unguarded(&mut self, min_bp: u8) -> ExprRef<'ast> {
         let start = self.cur.span.start;
 
         // Parse the left-hand side (primary expression)
